@@ -36,7 +36,7 @@ CFG = SPEC / "cfg"
 TRACE = SPEC / "trace" / "OrbitObjectTrace.tla"
 
 TOL = {"loose": 1e-6, "tight": 1e-12}      # "tight" is replaced by the live library default at start-up
-PER = {"P1": 2.0, "P2": 3.0}
+PER = {"P1": 2.0, "P2": 2.0 * (1.0 + 4e-6)}      # two DIFFERENT user periods that agree to 4e-6 relative (a refined guess)
 STEPS = {"s1": 40, "s2": 60}
 ORD = {"o4": 4, "o6": 6, "o8": 8}
 
@@ -261,10 +261,12 @@ class OrbitWorld:
         o = h["o"]
         try:
             if op == "SetPeriod":
-                o.period = self.Tc if arg[0] == "T" else PER[arg[0]]
+                h["assigned"] = self.Tc if arg[0] == "T" else PER[arg[0]]
+                o.period = h["assigned"]
                 return ("none",)
             if op == "Correct":
                 r = o.correct(None if arg[0] == "default" else Fx.opts(o, arg[0]))
+                h["found"] = 2.0 * float(r.half_period)
                 return ("val", stamp((np.asarray(r.x_corrected, dtype=float), float(r.half_period), bool(r.converged))))
             if op == "Propagate":
                 return ("val", stamp(o.propagate(steps=STEPS[arg[0]], method=arg[1], order=ORD[arg[2]])))
@@ -366,6 +368,14 @@ class OrbitWorld:
             out_r = self.do(real, op, arg)
             hits = self._hits(o_before, real["o"], self.rec.since(m))
             obs_r = self.observe(real["o"])
+            # what the operation itself says must be what the object then reports (the twin runs the same code, so these two are
+            # checked absolutely): an assigned period is the period; the period after a correction is the one the correction found
+            if op == "SetPeriod" and out_r[0] == "none" and real["o"].period != real.get("assigned"):
+                problems.append({"key": "orbit.period|assignment-dropped", "step": k, "op": op, "arg": arg, "real": [real["o"].period],
+                                 "twin": [real.get("assigned")], "real_state": list(obs_r), "twin_state": [], "hits": []})
+            if op == "Correct" and out_r[0] == "val" and real["o"].period != real.get("found"):
+                problems.append({"key": "orbit.correct|period-is-not-the-one-the-correction-found", "step": k, "op": op, "arg": arg,
+                                 "real": [real["o"].period], "twin": [real.get("found")], "real_state": list(obs_r), "twin_state": [], "hits": []})
             if op == "Save":
                 savedL, out_t, L2, obs_t = L, ("none",), L, self.obs_of(L)
             elif op in ("Load", "LoadInplace"):
